@@ -471,7 +471,7 @@ impl Prop for C11 {
             }
         }
         if ctx.want_xcheck() && cfg.gitconfig.is_none() {
-            ctx.xchecks.push(json!({"argv": cfg.args(None), "env": exec::env_from_spec(&cfg.env), "n": n,
+            ctx.xchecks.push(json!({"argv": cfg.args(None), "env": exec::env_from_spec(&cfg.env), "n": n, "pager_mode": ctx.xchecks.len() % 3 == 2,
                 "lines": case.lines.iter().map(|l| l.text.clone()).collect::<Vec<_>>(),
                 "meta": case.lines.iter().map(|l| json!([match l.kind { K::Header => 0, K::HunkHeader => 1, K::Ctx => 2, K::Minus => 3, K::Plus => 4, K::NoNewline => 5 }, l.sec, l.id])).collect::<Vec<_>>(),
                 "out_hash": format!("{:016x}", fnv(out))}));
@@ -533,19 +533,46 @@ fn drain(fd: &mut std::process::ChildStdout, into: &mut Vec<u8>) -> bool {
 }
 
 /// Ok(Some(snaps, out)) / Ok(None) = inconclusive
-fn probe(delta: &std::path::Path, args: &[String], env: &[(String, String)], home: &std::path::Path, lines: &[String]) -> std::io::Result<Option<(Vec<usize>, Vec<u8>, Option<i32>)>> {
+/// the process whose parent is `ppid` (the pager delta started)
+fn child_of(ppid: u32) -> Option<u32> {
+    for e in std::fs::read_dir("/proc").ok()?.flatten() {
+        let name = e.file_name();
+        let pid: u32 = match name.to_string_lossy().parse() {
+            Ok(p) => p,
+            Err(_) => continue,
+        };
+        if let Ok(st) = std::fs::read_to_string(format!("/proc/{}/stat", pid)) {
+            // pid (comm) state ppid ...
+            if let Some(rest) = st.rfind(')').map(|i| &st[i + 1..]) {
+                let mut it = rest.split_whitespace();
+                let _state = it.next();
+                if it.next().and_then(|p| p.parse::<u32>().ok()) == Some(ppid) {
+                    return Some(pid);
+                }
+            }
+        }
+    }
+    None
+}
+
+fn probe(delta: &std::path::Path, args: &[String], env: &[(String, String)], home: &std::path::Path, lines: &[String], pager: bool) -> std::io::Result<Option<(Vec<usize>, Vec<u8>, Option<i32>)>> {
     use std::os::unix::io::AsRawFd;
     use std::process::{Command, Stdio};
     let mut cmd = Command::new(delta);
-    // --paging=never: delta itself writes to our pipe (with a pager in between, the bytes pass
-    // through a second process whose scheduling is not delta's concern)
-    cmd.args(args).arg("--paging=never").env_clear().env("PATH", "/usr/bin:/bin").env("HOME", home).env("XDG_CONFIG_HOME", home.join(".config")).env("GIT_CONFIG_NOSYSTEM", "1").env("TERM", "xterm-256color");
+    // --paging=never: delta itself writes to our pipe.  Pager mode: delta writes to the pipe of
+    // a pager it starts (`cat`, which copies what it reads at once to our pipe); a snapshot is
+    // then taken when delta AND the pager are blocked asking for more input.
+    cmd.args(args).arg(if pager { "--paging=always" } else { "--paging=never" }).env_clear().env("PATH", "/usr/bin:/bin").env("HOME", home).env("XDG_CONFIG_HOME", home.join(".config")).env("GIT_CONFIG_NOSYSTEM", "1").env("TERM", "xterm-256color");
     for (k, v) in env {
         cmd.env(k, v);
+    }
+    if pager {
+        cmd.env("DELTA_PAGER", "/usr/bin/cat");
     }
     cmd.stdin(Stdio::piped()).stdout(Stdio::piped()).stderr(Stdio::null());
     let mut child = cmd.spawn()?;
     let pid = child.id();
+    let mut pager_pid: Option<u32> = None;
     let mut stdin = child.stdin.take().unwrap();
     let mut stdout = child.stdout.take().unwrap();
     unsafe {
@@ -592,6 +619,33 @@ fn probe(delta: &std::path::Path, args: &[String], env: &[(String, String)], hom
             // ... then be blocked asking for more
             match blocked_in_read0(pid) {
                 Some(true) => {
+                    if pager {
+                        // the pager too must have forwarded what it got: blocked in read(0) on
+                        // three looks 300 us apart, with nothing new arriving in between
+                        if pager_pid.is_none() {
+                            pager_pid = child_of(pid);
+                        }
+                        let pp = match pager_pid {
+                            Some(p) => p,
+                            None => return false,
+                        };
+                        let mut calm = 0;
+                        let mut tries = 0;
+                        while calm < 3 && tries < 20_000 {
+                            tries += 1;
+                            let before = out.len();
+                            drain(stdout, out);
+                            if blocked_in_read0(pp) == Some(true) && out.len() == before {
+                                calm += 1;
+                            } else {
+                                calm = 0;
+                            }
+                            std::thread::sleep(Duration::from_micros(300));
+                        }
+                        if calm < 3 {
+                            return false;
+                        }
+                    }
                     drain(stdout, out);
                     return true;
                 }
@@ -667,7 +721,8 @@ fn judge_stream(delta: &std::path::Path, home: &std::path::Path, x: &Value, stat
                 .collect()
         })
         .unwrap_or_default();
-    let r = probe(delta, &args, &env, home, &lines).map_err(|e| e.to_string())?;
+    let pager = x["pager_mode"].as_bool().unwrap_or(false);
+    let r = probe(delta, &args, &env, home, &lines, pager).map_err(|e| e.to_string())?;
     let (snaps, out, status) = match r {
         Some(v) => v,
         None => return Ok(None),
@@ -692,7 +747,8 @@ fn judge_stream(delta: &std::path::Path, home: &std::path::Path, x: &Value, stat
             let mut v: Value = x.clone();
             v["prefix_lines"] = json!(k);
             v["written_so_far_tail"] = json!(tail_of(&out[..snaps[k]]));
-            return Ok(Some(Some((Failure::new(format!("C11:binary:{}", sig), format!("real binary over pipes: {}", msg)).traits(traits), v))));
+            let mode = if pager { "pager:" } else { "" };
+            return Ok(Some(Some((Failure::new(format!("C11:binary:{}{}", mode, sig), format!("real binary over pipes{}: {}", if pager { " (writing to a pager)" } else { "" }, msg)).traits(traits), v))));
         }
     }
     Ok(Some(None))
@@ -747,7 +803,7 @@ pub fn debug_probe(x: &Value) {
     let delta = crate::runner::verif_root().join("target/bin/release/delta");
     let home = std::path::PathBuf::from("/tmp/c11-dbg-home");
     let _ = std::fs::create_dir_all(&home);
-    match probe(&delta, &args, &[], &home, &lines) {
+    match probe(&delta, &args, &[], &home, &lines, x["pager_mode"].as_bool().unwrap_or(false)) {
         Ok(Some((snaps, out, st))) => println!("snaps {:?} total {} status {:?}", snaps, out.len(), st),
         other => println!("{:?}", other.map(|o| o.is_some())),
     }
